@@ -66,7 +66,11 @@ func TestC08(t *testing.T) {
 			rec.Fail(t, sig, map[string]any{"schedule": "ring {1<<44, 2<<44, 3<<44}; a client write holds 3<<44's KV barrier; 5<<43's join request enters 3<<44 and waits; 2<<44 crashes and 3<<44's predecessor check drops it; the write finishes", "problem": p}, "%s", p)
 		}
 	}
-	if p := joinWhilePredecessorPointerStale(); p != "" {
+	stale := joinWhilePredecessorPointerStale()
+	for i := 0; i < 3 && len(stale) > 13 && stale[:13] == "precondition:"; i++ {
+		stale = joinWhilePredecessorPointerStale() // the window (S has not noticed yet) is up to one check interval wide
+	}
+	if p := stale; p != "" {
 		if len(p) > 13 && p[:13] == "precondition:" {
 			rec.Inconclusive("scenario-precondition")
 			t.Logf("stale-predecessor-pointer scenario: %s", p)
